@@ -180,20 +180,21 @@ type threadRow struct {
 	fn       string
 	param    string
 	why      string
+	contOnly bool // only recursive calls made from continuations (func(*Env) *Promise) and from the function itself
 }
 
 var threadRows = []threadRow{
-	{"Env", "unify", "occursCheck", "dropping it makes unify_with_occurs_check/2 check only the top level"},
-	{"VM", "exec", "vars", "a different variable frame breaks per-activation variables"},
-	{"VM", "exec", "cont", "a different continuation changes which goals run after the clause"},
-	{"VM", "exec", "cutParent", "a different barrier changes the scope of cut"},
-	{"", "contains", "s", "the occurs check would look for a different term"},
-	{"", "contains", "env", "the occurs check would resolve under a different environment"},
-	{"", "renamedCopy", "copied", "a fresh map per level destroys variable sharing inside copies"},
-	{"", "renamedCopy", "env", "the copy would resolve under a different environment"},
-	{"", "simplify", "simplified", "a fresh map per level loses sharing / loops on cyclic terms"},
-	{"", "simplify", "env", "would resolve under a different environment"},
-	{"", "cyclicTerm", "env", "would resolve under a different environment"},
+	{"Env", "unify", "occursCheck", "dropping it makes unify_with_occurs_check/2 check only the top level", false},
+	{"VM", "exec", "vars", "a different variable frame breaks per-activation variables", false},
+	{"VM", "exec", "cont", "a different continuation changes which goals run after the clause", false},
+	{"VM", "exec", "cutParent", "a different barrier changes the scope of cut", true}, // the thunk after a cut re-bases the barrier: R-CUT-REBASE
+	{"", "contains", "s", "the occurs check would look for a different term", false},
+	{"", "contains", "env", "the occurs check would resolve under a different environment", false},
+	{"", "renamedCopy", "copied", "a fresh map per level destroys variable sharing inside copies", false},
+	{"", "renamedCopy", "env", "the copy would resolve under a different environment", false},
+	{"", "simplify", "simplified", "a fresh map per level loses sharing / loops on cyclic terms", false},
+	{"", "simplify", "env", "would resolve under a different environment", false},
+	{"", "cyclicTerm", "env", "would resolve under a different environment", false},
 }
 
 func (c *Ctx) lookupFn(recvType, name string) *ssa.Function {
@@ -228,6 +229,9 @@ func ruleParamThread(rows []threadRow) func(c *Ctx, r *Report) {
 				eachInstr(f, func(in ssa.Instruction) {
 					ci, ok := in.(ssa.CallInstruction)
 					if !ok || ci.Common().StaticCallee() != fn {
+						return
+					}
+					if row.contOnly && f != fn && !(f.Signature.Params().Len() == 1 && c.isEnvPtr(f.Signature.Params().At(0).Type())) {
 						return
 					}
 					nsites++
